@@ -5,11 +5,14 @@ package main
 // consistency.
 
 import (
+	"encoding/json"
 	"fmt"
 	"go/ast"
 	"go/token"
 	"go/types"
 	"golang.org/x/tools/go/packages"
+	"os"
+	"path/filepath"
 	"sort"
 	"strings"
 )
@@ -199,6 +202,7 @@ func checkC15(ctx *Ctx, r *Report) {
 	c07ConfigOwnership(ctx, r)
 	c15FifthRound(ctx, r)
 	c15SixthRound(ctx, r)
+	c15SeventhRound(ctx, r)
 }
 
 // isSelectorTest: cond contains a test of the pass's selector.
@@ -1325,4 +1329,187 @@ func calleeOfValue(info *types.Info, e ast.Expr) (*types.Func, bool) {
 		}
 	}
 	return nil, false
+}
+
+// c15SeventhRound — fourth hunt:
+//   - schema_set_entry_point: what is stored into Schema.EntryPoint / EntryPointType comes from an object of the
+//     schema (found like every other transformation finds its target), not from the configuration as it is — a name
+//     that differs by case, or that designates nothing, must not become a reference to an object that does not exist;
+//   - rename_object: objects are kept under their name — giving an object the name of another one makes the visitor
+//     overwrite it. RenameObject.Process compares the names of the objects with the new name and leaves with an error;
+//   - one entry of `passes` / `builders` / `options` holds one transformation: the dispatchers test the members of the
+//     union one after the other and return at the first that is set. They first count the members that are set (a
+//     function using reflection that errs beyond one), and the published schemas cap the entry at one property.
+func c15SeventhRound(ctx *Ctx, r *Report) {
+	n := 0
+	cp := ctx.Pkg("internal/ast/compiler")
+	if cp == nil {
+		r.Undecided("anchor lost: internal/ast/compiler")
+		return
+	}
+	info := cp.TypesInfo
+	// (a)
+	if fn := ctx.LookupMethod("internal/ast/compiler", "SchemaSetEntrypoint", "Process"); fn == nil {
+		r.Undecided("anchor lost: compiler.SchemaSetEntrypoint.Process")
+	} else if fd, _ := ctx.DeclOf(fn); fd != nil {
+		recv := info.Defs[fd.Recv.List[0].Names[0]]
+		stores := 0
+		var fromConfig []string
+		ast.Inspect(fd.Body, func(m ast.Node) bool {
+			as, ok := m.(*ast.AssignStmt)
+			if !ok || len(as.Lhs) != len(as.Rhs) {
+				return true
+			}
+			for i, l := range as.Lhs {
+				sel, ok := ast.Unparen(l).(*ast.SelectorExpr)
+				if !ok || (sel.Sel.Name != "EntryPoint" && sel.Sel.Name != "EntryPointType") {
+					continue
+				}
+				stores++
+				usesConfig := false
+				ast.Inspect(as.Rhs[i], func(k ast.Node) bool {
+					if id, ok := k.(*ast.Ident); ok && objOf(info, id) == recv {
+						usesConfig = true
+					}
+					return true
+				})
+				if usesConfig {
+					fromConfig = append(fromConfig, exprString(l)+" = "+exprString(as.Rhs[i]))
+				}
+			}
+			return true
+		})
+		if stores == 0 {
+			r.Undecided("anchor changed: SchemaSetEntrypoint.Process stores no entry point")
+		} else {
+			n++
+			r.Check(len(fromConfig) == 0, "effects/entry-point-designates-an-object", "compiler.SchemaSetEntrypoint.Process sets the entry point", fd.Pos(), "from an object of the schema, not from the configured name as it is",
+				"schema_set_entry_point copies the configured name ("+strings.Join(fromConfig, "; ")+"): `entry_point: dash` next to the object Dash, or `entry_point: Nope`, gives EntryPointType = ref(main.dash) / ref(main.Nope) — the emitted JSON Schema starts with \"$ref\": \"#/definitions/dash\", which does not exist; every other transformation finds its target whatever the case and does nothing when there is none")
+		}
+	}
+	// (b)
+	if fn := ctx.LookupMethod("internal/ast/compiler", "RenameObject", "Process"); fn == nil {
+		r.Undecided("anchor lost: compiler.RenameObject.Process")
+	} else if fd, _ := ctx.DeclOf(fn); fd != nil {
+		recv := info.Defs[fd.Recv.List[0].Names[0]]
+		compares, fails := false, false
+		isNewName := func(e ast.Expr) bool {
+			sel, ok := ast.Unparen(e).(*ast.SelectorExpr)
+			return ok && sel.Sel.Name == "To" && isIdentOf(info, sel.X, recv)
+		}
+		isObjectName := func(e ast.Expr) bool {
+			sel, ok := ast.Unparen(e).(*ast.SelectorExpr)
+			return ok && (sel.Sel.Name == "Name" || sel.Sel.Name == "ReferredType")
+		}
+		ast.Inspect(fd.Body, func(m ast.Node) bool {
+			switch x := m.(type) {
+			case *ast.BinaryExpr:
+				if x.Op == token.EQL && ((isNewName(x.X) && isObjectName(x.Y)) || (isNewName(x.Y) && isObjectName(x.X))) {
+					compares = true
+				}
+			case *ast.CallExpr:
+				if f := callee(info, x); f != nil && (f.Name() == "EqualFold" || f.Name() == "HasObject" || f.Name() == "Has") {
+					for _, a := range x.Args {
+						if isNewName(a) {
+							compares = true
+						}
+					}
+				}
+			case *ast.ReturnStmt:
+				if len(x.Results) == 2 && !isNilIdent(info, x.Results[1]) {
+					if c, ok := ast.Unparen(x.Results[1]).(*ast.CallExpr); ok {
+						if f := callee(info, c); f != nil && f.Pkg() != nil && (f.Pkg().Path() == "fmt" || f.Pkg().Path() == "errors") {
+							fails = true
+						}
+					}
+				}
+			}
+			return true
+		})
+		n++
+		r.Check(compares && fails, "effects/rename-target-free", "compiler.RenameObject.Process gives an object a new name", fd.Pos(), "after comparing that name with the names of the other objects, with an error exit",
+			"rename_object never asks whether the new name is taken: `rename_object main.Bar → Foo` next to an object Foo gives Foo{b} and Holder{foo→Foo, bar→Foo} — the visitor stores the renamed object over the other one: three objects in, two out, and which one is lost depends on their order")
+	}
+	n += c20UnionSingleMember(ctx, r)
+	r.Count("hunted clauses of the transformations (7th round)", n)
+	r.Floor("hunted clauses of the transformations (7th round)", 5)
+}
+
+// c20UnionSingleMember: the three lists of a transformations / veneers file hold one transformation per entry. The
+// dispatcher of each union starts with a call, under an error exit, to a function that counts the members that are set
+// (reflection: IsNil) and errs beyond one; the published definition caps the entry at one property.
+func c20UnionSingleMember(ctx *Ctx, r *Report) int {
+	yp := ctx.Pkg("internal/yaml")
+	if yp == nil {
+		r.Undecided("anchor lost: internal/yaml")
+		return 0
+	}
+	info := yp.TypesInfo
+	counts := func(f *types.Func) bool {
+		fd, _ := ctx.DeclOf(f)
+		if fd == nil || fd.Body == nil {
+			return false
+		}
+		isNil, beyondOne := false, false
+		ast.Inspect(fd.Body, func(m ast.Node) bool {
+			switch x := m.(type) {
+			case *ast.CallExpr:
+				if cf := callee(info, x); cf != nil && cf.Name() == "IsNil" {
+					isNil = true
+				}
+			case *ast.BinaryExpr:
+				if tv, ok := info.Types[x.Y]; ok && tv.Value != nil && (x.Op == token.GTR && tv.Value.ExactString() == "1" || x.Op == token.GEQ && tv.Value.ExactString() == "2") {
+					beyondOne = true
+				}
+			}
+			return true
+		})
+		return isNil && beyondOne
+	}
+	n := 0
+	for _, u := range []struct{ typ, method, file, def string }{
+		{"CompilerPass", "AsCompilerPass", "schemas/compiler_passes.json", "YamlCompilerPass"},
+		{"BuilderRule", "AsRewriteRule", "schemas/veneers.json", "YamlBuilderRule"},
+		{"OptionRule", "AsRewriteRule", "schemas/veneers.json", "YamlOptionRule"},
+	} {
+		fn := ctx.LookupMethod("internal/yaml", u.typ, u.method)
+		fd, _ := ctx.DeclOf(fn)
+		if fd == nil || fd.Body == nil || len(fd.Body.List) == 0 {
+			r.Undecided("anchor lost: yaml.%s.%s", u.typ, u.method)
+			continue
+		}
+		recv := info.Defs[fd.Recv.List[0].Names[0]]
+		guarded := false
+		if is, ok := fd.Body.List[0].(*ast.IfStmt); ok && endsInExit(is.Body) {
+			if as, ok := is.Init.(*ast.AssignStmt); ok && len(as.Rhs) == 1 {
+				if c, ok := ast.Unparen(as.Rhs[0]).(*ast.CallExpr); ok && counts(callee(info, c)) {
+					for _, a := range c.Args {
+						if isIdentOf(info, a, recv) {
+							guarded = true
+						}
+					}
+				}
+			}
+		}
+		n++
+		r.Check(guarded, "cfgschema/union-single-member", "yaml."+u.typ+"."+u.method+" takes one member of the union", fd.Pos(), "after a check that errs when several members are set",
+			"yaml."+u.typ+"."+u.method+" returns at the first member of the union that is set: `- rename_object: {…}` and `omit: {…}` in one list entry apply omit only — the other transformation is dropped without a word, and which one survives follows the order of the tests in the Go source, not the file")
+		data, err := os.ReadFile(filepath.Join(ctx.Repo, u.file))
+		if err != nil {
+			r.Undecided("cannot read %s: %v", u.file, err)
+			continue
+		}
+		var doc map[string]any
+		if err := json.Unmarshal(data, &doc); err != nil {
+			r.Undecided("cannot parse %s: %v", u.file, err)
+			continue
+		}
+		defs, _ := doc["$defs"].(map[string]any)
+		def, _ := defs[u.def].(map[string]any)
+		max, hasMax := def["maxProperties"].(float64)
+		n++
+		r.Check(hasMax && max == 1, "cfgschema/union-single-member", u.file+" "+u.def+" holds one transformation", token.NoPos, "maxProperties: 1",
+			"the published definition "+u.def+" accepts an entry with several keys, which the loader refuses (or, before the repair, half applied): a file that validates in an editor does not load")
+	}
+	return n
 }
